@@ -7,8 +7,10 @@ TECH = "explicit-state exhaustive enumeration of inputs/operation sequences on t
 
 CHECKS = {
     "C01": dict(
-        text="Every query (X,Y) on every labelled ADMG up to 3 nodes and every name-ordered 4-node ADMG (thorough: all 34 752 labelled "
-        "4-node ADMGs and five-node graphs up to 5 edges) is run through the real ID code; each returned estimand is evaluated "
+        text="Every query (X,Y) on every labelled ADMG up to 3 nodes and every name-ordered 4-node ADMG, the irreducible line-7-first "
+        "queries of five-node graphs up to 8 edges (thorough: all 34 752 labelled 4-node ADMGs, all irreducible five-node queries), and "
+        "every sequence of three edge insertions on one live graph object with all queries after each insertion, is run through the "
+        "real ID code; each returned estimand is evaluated "
         "exactly (rational arithmetic) on generic witness SCMs for every value assignment and compared with P(y|do x) computed by "
         "truncated factorisation. Exhaustive over graphs, queries and assignments within the bound; the quantifier over all SCMs "
         "is discharged on generic witnesses (binary and ternary), which cannot raise a false alarm.",
@@ -16,7 +18,8 @@ CHECKS = {
         design="4/C01",
     ),
     "C02": dict(
-        text="Every query on every graph of the bound is run through both public ID entry points; the outcome class "
+        text="Every query on every graph of the bound (also given as networkx graphs over string names) is run through both public ID entry "
+        "points; the outcome class "
         "(estimand / refusal / anything else) is compared with an independent identifiability oracle (Tian-Pearl closure, "
         "cross-checked against a brute-force hedge search), and the caller's graph and query objects are snapshotted before and "
         "after. Bounded-exhaustive over (graph, X, Y).",
@@ -31,7 +34,9 @@ CHECKS = {
         design="4/C03",
     ),
     "C05": dict(
-        text="Every (graph, X, Y, list of up to two source domains (Z_i, W_i)) within the bound is run through identify_target_outcomes; "
+        text="Every (graph, X, Y, list of up to two source domains (Z_i, W_i)) within the bound (three-node graphs exhaustively, four-node "
+        "slices without domains, with one and with two single-experiment domains) is run through identify_target_outcomes with "
+        "argument sets that are re-used across calls and snapshotted; "
         "the estimand is evaluated on a multi-domain witness family (source models share every mechanism with the target except at the "
         "nodes marked by the selection diagram) and compared with the target P*(y|do x) for every assignment; with no domains the "
         "None-ness must coincide with ID-identifiability.",
@@ -58,7 +63,8 @@ CHECKS = {
         design="4/C07",
     ),
     "C08": dict(
-        text="Every (outcome, condition) pair of counterfactual event items on every graph of the bound is passed to idc_star; the "
+        text="Every (outcome, condition) pair of counterfactual event items, and every factual query with two conditions or two outcomes "
+        "in both listing orders, on every graph of the bound is passed to idc_star; the "
         "result is evaluated on two functional witness SCMs by exhaustive noise enumeration for every base assignment and compared "
         "with P(outcomes, conditions)/P(conditions); Zero() only for impossible joint events; an impossible condition must be "
         "rejected. Failing inputs caused by the ID* defects that the repository's tests pin are listed in an index; any other "
@@ -79,10 +85,11 @@ CHECKS = {
         "graph of the bound: minimize_counterfactual is compared with the original variable in every exogenous setting of two "
         "functional witnesses, get_ancestors_of_counterfactual with an independent implementation of Definition 2.1; for every "
         "event of up to two items (repeated variables allowed): simplify must preserve the event's probability (None only at "
-        "probability zero) and the counterfactual-factor factorisation of simplified-form queries must evaluate to the query's "
-        "probability with multi-world terms obtained by noise enumeration. Defects pinned by the repository's tests are listed "
+        "probability zero) get_ancestral_components is compared with Definition 4.2, and the counterfactual-factor factorisation of non-reflexive "
+        "queries must evaluate to the query's probability with multi-world terms obtained by noise enumeration. Defects pinned by the repository's tests are listed "
         "with an index of failing inputs.",
-        note="Trusted: mc/fscm.py; ancestral components (Definition 4.2) are not covered by this check.",
+        note="Trusted: mc/fscm.py and the definition-based references for Definitions 2.1 and 4.2 (two worlds of one vertex are "
+        "treated as linked, since they share exogenous noise).",
         design="4/C19",
     ),
     "C09": dict(
@@ -158,8 +165,8 @@ CHECKS = {
     ),
     "C04": dict(
         text="Every ordered pair and conditioning set on every labelled ADMG up to 4 nodes (thorough: plus five-node graphs up "
-        "to 6 edges), under all node-insertion permutations / reversed edge lists and several hash seeds, is passed to the real "
-        "are_d_separated and compared with the path definition of d-separation on the latent-expanded DAG.",
+        "to 6 edges), under all node-insertion permutations / reversed edge lists and several hash seeds, and after every step of every "
+        "sequence of three edge insertions on one live graph object, is passed to the real are_d_separated and compared with the path definition of d-separation on the latent-expanded DAG.",
         note="Trusted: the path-definition oracle (mc/graphs.py dsep_paths), cross-checked against Bayes-ball in selftest.",
         design="4/C04",
     ),
